@@ -52,6 +52,30 @@ impl<'r, 'c, 's, W: Write> DatumSerializer<'r, 'c, 's, W> {
 	}
 }
 
+/// Abstract "value whose serialization fails after having written k bytes" (any k <= 3, any bytes):
+/// stands for a type mismatch at arbitrary depth inside a composite value.  The generic `S` is
+/// reinterpreted as the one concrete serializer the container writer passes (checked by type name
+/// and size - harness only), junk is appended straight to its output buffer, then Err.
+pub(crate) struct PartialThenFail {
+	pub(crate) junk: [u8; 3],
+	pub(crate) k: usize,
+}
+impl Serialize for PartialThenFail {
+	fn serialize<S: Serializer>(&self, s: S) -> Result<S::Ok, S::Error> {
+		type Concrete<'r, 'c, 's> = DatumSerializer<'r, 'c, 's, Vec<u8>>;
+		assert!(
+			std::any::type_name::<S>().len() == std::any::type_name::<Concrete<'static, 'static, 'static>>().len()
+				&& std::mem::size_of::<S>() == std::mem::size_of::<Concrete<'static, 'static, 'static>>(),
+			"harness: unexpected serializer type"
+		);
+		// SAFETY (harness only): same type up to lifetimes
+		let ds: Concrete<'_, '_, '_> = unsafe { std::mem::transmute_copy(&s) };
+		std::mem::forget(s);
+		ds.state.writer.extend_from_slice(&self.junk[..self.k]);
+		Err(<S::Error as serde::ser::Error>::custom("value does not match the schema"))
+	}
+}
+
 /// The cell postcondition for varint-encoded nodes.
 fn check_varint_cell(r: Result<Vec<u8>, SerError>, expected: Option<([u8; 10], usize)>) {
 	match (&r, expected) {
